@@ -100,6 +100,20 @@ def perturbations(region, prng):
         kw.update(changes)
         return cls(**kw)
 
+    if cls.__name__ in ('LinePixelRegion', 'LineSkyRegion'):
+        # a line is an ordered pair of end points: exchanged, it is another region (two fields differ)
+        try:
+            differ = bool(np.any(region.start != region.end)) if cls.__name__ == 'LinePixelRegion' else bool(region.start.separation(region.end).deg > 0)
+        except Exception:
+            differ = False
+        if differ:
+            yield 'start<->end exchanged', rebuild(start=region.end, end=region.start)
+    # list-valued entries compare element by element, exactly: 7 is not '7', 2**53 + 1 is not 2**53
+    base_tag = list(dict.get(region.meta, 'tag', None) or ['grp'])
+    yield "meta['tag'] int-vs-str element", (rebuild(meta=type(region.meta)(dict(region.meta, tag=base_tag + [7]))),
+                                               rebuild(meta=type(region.meta)(dict(region.meta, tag=base_tag + ['7']))))
+    yield "meta['tag'] big-int element", (rebuild(meta=type(region.meta)(dict(region.meta, tag=base_tag + [2 ** 53 + 1, 0.5]))),
+                                            rebuild(meta=type(region.meta)(dict(region.meta, tag=base_tag + [2 ** 53, 0.5]))))
     for name in region._params:
         v = getattr(region, name)
         if name == 'operator':
@@ -112,6 +126,11 @@ def perturbations(region, prng):
             yield name, rebuild(nvertices=v + 1)
         elif hasattr(v, '_params'):
             for sub, pv in perturbations(v, prng):
+                if pv is None:
+                    continue
+                if isinstance(pv, tuple):          # a pair of variants of the operand: a pair of variants of the compound
+                    yield f'{name}.{sub}', (rebuild(**{name: pv[0]}), rebuild(**{name: pv[1]}))
+                    continue
                 yield f'{name}.{sub}', rebuild(**{name: pv})
                 break
         elif isinstance(v, PixCoord):
